@@ -24,6 +24,8 @@ def reachable(prog, start, allowed_modules):
 
 
 def check(prog, run):
+    from . import c04 as _c04
+    _c04.check_collect_filtering(prog, run, "D10")   # = C04.K2: what @skip/@include exclude is not measured
     call = prog.get_func(MOD, "MaxDepthValidationRule.__call__")
     fns = reachable(prog, call, {MOD, CF})
     for f in fns:
